@@ -360,6 +360,60 @@ func joinLex(ls []string) string {
 	return sb.String()
 }
 
+func propTplMaps(c *Ctx) {
+	// the variable map is an input of every rendering: the SAME map object cleared and refilled with as many other keys, keys
+	// re-spelled in another case, default variables edited in place between two renderings
+	for _, sc := range []struct{ tpl, k1, v1, k2, v2 string }{{"[{{town}}]{{^city}}none{{/city}}", "town", "X", "Town", "Y"}, {"Hello, {{NAME}}!", "name", "Bob", "Name", "Cid"},
+		{"{{#a}}in{{/a}}{{^a}}out{{/a}}", "a", "1", "b", "1"}, {"{{x}}", "x", "1", "X", ""}, {"{{x}}{{y}}", "x", "1", "y", "2"}} {
+		op := "tplmap " + strRunes(sc.tpl) + " " + strRunes(sc.k1) + " " + strRunes(sc.k2)
+		c.record(op, true)
+		c.count("map-refilled-in-place")
+		note := ""
+		st := safeCallT(5*time.Second, func() string {
+			ref := func(m map[string]string) string {
+				t := mustache.NewMustacheTemplate()
+				t.SetAutoVariables(false)
+				t.SetTemplate(sc.tpl)
+				own := map[string]string{}
+				for k, v := range m {
+					own[k] = v
+				}
+				r, err := t.EvaluateWithVariables(own)
+				return r + "|" + errCode(err)
+			}
+			// (1) an explicit map, refilled in place
+			t := mustache.NewMustacheTemplate()
+			t.SetAutoVariables(false)
+			t.SetTemplate(sc.tpl)
+			m := map[string]string{sc.k1: sc.v1, "other": "o"}
+			t.EvaluateWithVariables(m)
+			delete(m, sc.k1)
+			m[sc.k2] = sc.v2
+			r, err := t.EvaluateWithVariables(m)
+			if got, want := r+"|"+errCode(err), ref(m); got != want {
+				note = fmt.Sprintf("template %q: after the map {%s} was refilled in place to {%s, other} the rendering is %q, a new template object gives %q", sc.tpl, sc.k1, sc.k2, got, want)
+				return ""
+			}
+			// (2) the template's own default variables, edited in place
+			t2 := mustache.NewMustacheTemplate()
+			t2.SetAutoVariables(false)
+			t2.SetTemplate(sc.tpl)
+			t2.DefaultVariables()[sc.k1] = sc.v1
+			t2.Evaluate()
+			delete(t2.DefaultVariables(), sc.k1)
+			t2.DefaultVariables()[sc.k2] = sc.v2
+			r2, err2 := t2.Evaluate()
+			if got, want := r2+"|"+errCode(err2), ref(map[string]string{sc.k2: sc.v2}); got != want {
+				note = fmt.Sprintf("template %q: after the default variables {%s} were edited in place to {%s} Evaluate() gives %q, a new template object with those variables gives %q", sc.tpl, sc.k1, sc.k2, got, want)
+			}
+			return ""
+		})
+		if st != "" || note != "" {
+			c.fail(Failure{Kind: "oracle", Op: op, Impl: st, Note: note})
+		}
+	}
+}
+
 func propC10(c *Ctx) {
 	propScaleTemplates(c)
 	g := newExGen(c)
@@ -417,6 +471,7 @@ func propC10(c *Ctx) {
 			runTplCase(c, ast, printTpl(ast), map[string]string{pr[1]: "v"}, "case-mapping-names")
 		}
 	}
+	propTplMaps(c)
 	// accept / reject: every string over the lexeme alphabet up to a bounded length
 	maxL := 4
 	if c.Thorough {
@@ -451,6 +506,10 @@ func propC10(c *Ctx) {
 
 func replayTpl(c *Ctx, op string) {
 	if replaySeq(c, op) || replayEntry(c, op) {
+		return
+	}
+	if strings.HasPrefix(op, "tplmap ") {
+		propTplMaps(c)
 		return
 	}
 	f := strings.Fields(op)
